@@ -2,5 +2,6 @@ import WpModel.Drive.Loop
 import WpModel.Drive.Break
 import WpModel.Drive.Paginate
 import WpModel.Drive.BreakTrace
+import WpModel.Drive.C04Extra
 
-def main : IO Unit := Wp.Drive.runDriver [Wp.Drive.Break.handle, Wp.Drive.Paginate.handle, Wp.Drive.BreakTrace.handle]
+def main : IO Unit := Wp.Drive.runDriver [Wp.Drive.Break.handle, Wp.Drive.Paginate.handle, Wp.Drive.BreakTrace.handle, Wp.Drive.C04Extra.handle]
